@@ -121,6 +121,12 @@ def run_check(pid, units, tier, seed, props_files=None, default_imports='', leve
             discharged += len(u.theorems)
         if st == 'blocked':
             blocked_units.append(u.name)
+    if (not ok_make or not ok_props or bad or not ok_gen) and not any(v['status'] == 'failed' for v in unit_status.values()):
+        # the property's theorems could not be re-checked and no unit was pinpointed: nothing is shown to hold
+        for name, v in unit_status.items():
+            if v['status'] == 'blocked':
+                v['status'] = 'failed'
+                v['why'] = (v.get('why') or '') + ' (a lemma below this unit no longer checks)'
     err = C.first_coq_error(makelog) if not ok_make else None
     broken = None
     if err:
